@@ -65,10 +65,18 @@ impl TableProvider for SimTable {
                 Some(p) => p.iter().position(|c| *c == col),
             };
             pos.and_then(|i| {
-                LexOrdering::new(vec![PhysicalSortExpr::new(
-                    Arc::new(Column::new(name, i)),
-                    SortOptions { descending: false, nulls_first: true },
-                )])
+                let mut exprs = vec![PhysicalSortExpr::new(Arc::new(Column::new(name, i)), SortOptions { descending: false, nulls_first: true })];
+                // bounded tables sorted by k: ids are positional within a partition, so (k, id) is sorted too
+                if self.sorted_by_k && !self.sorted_by_id && !self.unbounded {
+                    let id_pos = match &proj {
+                        None => Some(0),
+                        Some(p) => p.iter().position(|c| *c == 0),
+                    };
+                    if let Some(j) = id_pos {
+                        exprs.push(PhysicalSortExpr::new(Arc::new(Column::new("id", j)), SortOptions { descending: false, nulls_first: true }));
+                    }
+                }
+                LexOrdering::new(exprs)
             })
         } else {
             None
@@ -140,11 +148,58 @@ pub fn generate_cfg(rng: &mut Rng) -> Value {
     if rng.chance(1, 4) {
         set("datafusion.optimizer.enable_topk_repartition", json!(rng.chance(1, 2)));
     }
+    if rng.chance(1, 3) {
+        // perfect (array) hash join for dense small integer build sides
+        set("datafusion.execution.perfect_hash_join_small_build_threshold", json!(*rng.pick(&[0u64, 2, 8, 1024])));
+        set("datafusion.execution.perfect_hash_join_min_key_density", json!(*rng.pick(&[0.0f64, 0.15, 0.5, 1.0])));
+    }
+    if rng.chance(1, 4) {
+        set("datafusion.execution.hash_join_buffering_capacity", json!(*rng.pick(&[1u64, 100, 4096, 1 << 20])));
+    }
+    if rng.chance(1, 3) {
+        set("datafusion.optimizer.enable_window_topn", json!(true));
+    }
+    for (k, den) in [
+        ("datafusion.execution.enable_migration_aggregate", 6),
+        ("datafusion.optimizer.enable_distinct_aggregation_soft_limit", 6),
+        ("datafusion.optimizer.enable_window_limits", 6),
+        ("datafusion.optimizer.enable_physical_uncorrelated_scalar_subquery", 6),
+        ("datafusion.optimizer.filter_null_join_keys", 6),
+        ("datafusion.optimizer.top_down_join_key_reordering", 8),
+        ("datafusion.optimizer.prefer_existing_union", 8),
+        ("datafusion.optimizer.enable_leaf_expression_pushdown", 8),
+        ("datafusion.optimizer.enable_unions_to_filter", 8),
+        ("datafusion.optimizer.enable_join_dynamic_filter_pushdown", 8),
+        ("datafusion.optimizer.enable_topk_dynamic_filter_pushdown", 8),
+        ("datafusion.optimizer.enable_aggregate_dynamic_filter_pushdown", 8),
+        ("datafusion.optimizer.allow_symmetric_joins_without_pruning", 10),
+        ("datafusion.execution.use_row_number_estimates_to_optimize_partitioning", 8),
+        ("datafusion.execution.collect_statistics", 8),
+        ("datafusion.sql_parser.enable_subquery_sort_elimination", 10),
+    ] {
+        if rng.chance(1, den) {
+            set(k, json!(rng.chance(1, 2)));
+        }
+    }
+    if rng.chance(1, 6) {
+        set("datafusion.optimizer.subset_repartition_threshold", json!(*rng.pick(&[0u64, 1, 4, 100])));
+    }
+    if rng.chance(1, 8) {
+        set("datafusion.execution.sort_pushdown_buffer_capacity", json!(*rng.pick(&[0u64, 1, 1024, 1 << 30])));
+    }
+    if rng.chance(1, 8) {
+        set("datafusion.optimizer.max_passes", json!(*rng.pick(&[1u64, 2, 3, 5])));
+    }
     Value::Object(m)
 }
 
 pub fn apply_cfg(mut cfg: SessionConfig, knobs: &Value) -> Option<SessionConfig> {
     for (k, v) in knobs.as_object()? {
+        // (the shrinker zeroes numbers: zero optimizer passes is not a configuration, it switches the
+        // optimizer off, after which e.g. arrow_cast is never simplified into a cast)
+        if k == "datafusion.optimizer.max_passes" && v.as_u64() == Some(0) {
+            return None;
+        }
         let s = match v {
             Value::String(s) => s.clone(),
             other => other.to_string(),
@@ -203,6 +258,24 @@ pub fn parse_tables(v: &Value) -> Option<Vec<TableSpec>> {
     }
     if out.is_empty() || out.len() > 4 {
         return None;
+    }
+    // a table that declares itself sorted must be sorted (the shrinker may have edited rows)
+    for t in &out {
+        if t.sorted_by_k {
+            for p in &t.scripts {
+                let mut last: Option<Option<i32>> = None;
+                for st in p {
+                    if let Step::Batch(rs) = st {
+                        for r in rs {
+                            if last.is_some_and(|l| r.k < l) {
+                                return None;
+                            }
+                            last = Some(r.k);
+                        }
+                    }
+                }
+            }
+        }
     }
     Some(out)
 }
@@ -354,16 +427,22 @@ pub struct Executed {
     pub batches_seen: u64,
 }
 
+/// Plans `sql` through the real parser, planner and optimizers.
+pub async fn plan_sql(ctx: &SessionContext, sql: &str) -> Result<Arc<dyn ExecutionPlan>> {
+    ctx.sql(sql).await?.create_physical_plan().await
+}
+
 /// Plans and executes `sql`. With `drop_after = Some(k)` the output is abandoned after k batches.
 pub async fn execute_sql(ctx: &SessionContext, sql: &str, consume: Consume, drop_after: Option<u64>) -> Executed {
-    let df = match ctx.sql(sql).await {
-        Ok(df) => df,
-        Err(e) => return Executed { result: Err(e), plan: None, dropped_early: false, batches_seen: 0 },
-    };
-    let plan = match df.create_physical_plan().await {
+    let plan = match plan_sql(ctx, sql).await {
         Ok(p) => p,
         Err(e) => return Executed { result: Err(e), plan: None, dropped_early: false, batches_seen: 0 },
     };
+    execute_plan(ctx, plan, consume, drop_after).await
+}
+
+/// Executes an already planned query (the caller keeps the plan, e.g. to inspect it after a panic).
+pub async fn execute_plan(ctx: &SessionContext, plan: Arc<dyn ExecutionPlan>, consume: Consume, drop_after: Option<u64>) -> Executed {
     let task = ctx.task_ctx();
     let mut seen = 0u64;
     let mut dropped = false;
@@ -460,6 +539,33 @@ pub fn compare(got: &[Cells], want: &[Cells], ordered: bool) -> Option<String> {
     }
     None
 }
+/// Comparison under the template's mode (see `queries::Compare`).
+pub fn compare_with(got: &[Cells], want: &[Cells], mode: &crate::queries::Compare, universe: Option<&[Cells]>) -> Option<String> {
+    use crate::queries::Compare;
+    match mode {
+        Compare::Multiset => compare(got, want, false),
+        Compare::Sequence => compare(got, want, true),
+        Compare::LimitAny | Compare::TopTies { .. } => {
+            let Some(u) = universe else { return compare(got, want, false) };
+            if got.len() != want.len() {
+                return Some(format!("{} rows returned, {} expected (of {} candidates)", got.len(), want.len(), u.len()));
+            }
+            for r in got {
+                if count(got, r) > count(u, r) {
+                    return Some(format!("row {r:?} returned {} times, it occurs {} times among the candidates", count(got, r), count(u, r)));
+                }
+            }
+            if let Compare::TopTies { from } = mode {
+                let g: Vec<&[Option<String>]> = got.iter().map(|r| &r[(*from).min(r.len())..]).collect();
+                let w: Vec<&[Option<String>]> = want.iter().map(|r| &r[(*from).min(r.len())..]).collect();
+                if g != w {
+                    return Some(format!("ordering values differ: got {g:?}, expected {w:?}"));
+                }
+            }
+            None
+        }
+    }
+}
 fn count(v: &[Cells], r: &Cells) -> usize {
     v.iter().filter(|x| *x == r).count()
 }
@@ -476,6 +582,24 @@ pub fn error_text(e: &DataFusionError) -> String {
 ///    LEFT ANTI, LEFT MARK, FULL) and there is more than one right partition;
 ///  * "nlj-fallback-right-emission": join type emits right rows in a final step (RIGHT, RIGHT SEMI,
 ///    RIGHT ANTI, RIGHT MARK, FULL).
+/// Third known defect of the same fallback: it executes the join's *left child a second time* (after
+/// the first, in-memory attempt ran out of memory). A left subtree holding a RepartitionExec, whose
+/// output partitions can be executed only once, then panics ("partition not used yet"). True if the
+/// plan has a NestedLoopJoinExec with a RepartitionExec in its left subtree.
+pub fn nlj_left_reexecution_shape(plan: &Arc<dyn ExecutionPlan>) -> bool {
+    use datafusion_physical_plan::joins::NestedLoopJoinExec;
+    use datafusion_physical_plan::repartition::RepartitionExec;
+    fn has_repartition(p: &Arc<dyn ExecutionPlan>) -> bool {
+        p.downcast_ref::<RepartitionExec>().is_some() || p.children().iter().any(|c| has_repartition(c))
+    }
+    if let Some(nlj) = plan.downcast_ref::<NestedLoopJoinExec>() {
+        if has_repartition(nlj.left()) {
+            return true;
+        }
+    }
+    plan.children().iter().any(|c| nlj_left_reexecution_shape(c))
+}
+
 pub fn nlj_fallback_kind(plan: &Arc<dyn ExecutionPlan>) -> Option<&'static str> {
     use datafusion::common::JoinType;
     use datafusion_physical_plan::joins::NestedLoopJoinExec;
